@@ -24,7 +24,7 @@ import ast
 import itertools
 
 from verifkit import modidx, pat
-from verifkit.absrun import Obj, Runner, StandIn
+from verifkit.absrun import isinstance_names, Obj, Runner, StandIn
 from verifkit.core import Outcome
 from verifkit.escape import escape
 from verifkit.finite import Undecided, Raised
@@ -237,8 +237,7 @@ class Sub(StandIn):
 def eq_hook(kind_of_other, areas):
     def hook(rn, ev, call, name, recv, args, kwargs):
         if name == "isinstance":
-            c = call.args[1]
-            names = [c.id] if isinstance(c, ast.Name) else [e.id for e in c.elts]
+            names = isinstance_names(call, args)
             x = args[0]
             k = getattr(x, "kind", None)
             if k is None:
